@@ -121,7 +121,9 @@ func c02(c *Ctx) {
 		if alh == nil {
 			c.undecided(r6, fnName(f)+":Alh()", "no call of TxHeader.Alh in performPrecommit")
 		} else {
-			flows := func(v ssa.Value) bool { return dependsOn(v, func(x ssa.Value) bool { return x == alh }) || derivesFromAllocOf(v, alh) }
+			flows := func(v ssa.Value) bool {
+				return dependsOn(v, func(x ssa.Value) bool { return x == alh }) || derivesFromAllocOf(v, alh)
+			}
 			for _, in := range sites(f, callTo("embedded/ahtree.(*AHtree).Append")) {
 				c.check(flows(callOf(in).Args[1]), r6, fnName(f)+":aht.Append(alh)", c.pos(in.Pos()), "AHT leaf is the header's Alh", "AHT leaf is not the header's Alh: "+desc(callOf(in).Args[1]))
 			}
@@ -406,7 +408,9 @@ func c02TxReaderChain(c *Ctx, r string) {
 		first := whenCond(true, func(a string) bool {
 			return strings.Contains(a, "InitialTxID") && strings.Contains(a, "CurrTxID") && strings.Contains(a, " == ")
 		})
-		cmpAsc := func(a string) bool { return strings.Contains(a, "CurrAlh") && strings.Contains(a, "PrevAlh") && strings.Contains(a, " == ") }
+		cmpAsc := func(a string) bool {
+			return strings.Contains(a, "CurrAlh") && strings.Contains(a, "PrevAlh") && strings.Contains(a, " == ")
+		}
 		cmpDesc := func(a string) bool {
 			return strings.Contains(a, "CurrAlh") && strings.Contains(a, ".Alh[") && strings.Contains(a, " == ")
 		}
